@@ -36,7 +36,10 @@ SPEC = {
         "and cleanup-vs-ban additionally by the racing run (probabilistic search, can only find, never establish)",
         "float64 token arithmetic is modelled by exact integers in 1/U token; two time.Now() calls inside one call are one instant",
         "IPv4 addresses in canonical text; a whitelisted address is allowed by design (whitelist has priority)",
-        "admin calls BanIP/UnbanIP/Reset and storage persistence of the lists are outside the time lines",
+        "admin calls BanIP/UnbanIP/Reset are outside the time lines; list persistence is modelled as a copy of the in-memory lists "
+        "(saveToStorage/removeFromStorage) that a restart loads; the storage's own TTL (drops only already-expired records), the "
+        "index list's DefaultDataTTL on the memory backend, and two managers alive at once over one storage (no refresh after "
+        "construction) are not modelled; harness uses the memory backend",
         "handshake time lines of the harness use either Burst=1000 with 1 token/s (inside the hypothesis of C18_handshake) or a small "
         "burst without refill and a TTL beyond the time line (outside Burst*U <= Rate*TTL, but no bucket is ever dropped there); "
         "holdsHS is evaluated on all of them",
